@@ -410,6 +410,31 @@ def run(ck, only=None):
                          "flags": [mainh, "--", "-I" + inc] + sum((["-include", h] for h in firsts), [])})
             index[jid] = {"name": name, "domain": "multi"}
     res = common.run_jobs(jobs, wd, timeout=60)
+    # headers named RELATIVE to the working directory, with file patterns written for that spelling (a round trip that re-spells the
+    # path - absolute, canonical - changes what the patterns match; the flag lists stay equal, only the bindings show it)
+    if not only or only.startswith("relative-path"):
+        sub = os.path.join(wd, "reldir")
+        os.makedirs(os.path.join(sub, "inc"), exist_ok=True)
+        open(os.path.join(sub, "rel_api.h"), "w").write('#include "inc/rel_dep.h"\nstruct RelApi { rel_dep_t d; };\nint rel_fn(void);\n')
+        open(os.path.join(sub, "inc", "rel_dep.h"), "w").write("typedef int rel_dep_t;\nstruct RelDep { int x; };\n")
+        rjobs = []
+        for name, ops in (("relative-path-allowlist-file", [["header", "rel_api.h"], ["allowlist_file", "rel_api\\.h"]]),
+                          ("relative-path-blocklist-file", [["header", "rel_api.h"], ["blocklist_file", "inc/rel_dep\\.h"]]),
+                          ("relative-path-dot", [["header", "./rel_api.h"], ["allowlist_file", "\\./rel_api\\.h"]]),
+                          ("relative-path-two-headers", [["header", "inc/rel_dep.h"], ["header", "rel_api.h"], ["allowlist_file", "rel_api\\.h"]])):
+            if only and only != name:
+                continue
+            jid = f"R|{name}|multi"
+            rjobs.append({"id": jid, "mode": "roundtrip", "ops": ops})
+            index[jid] = {"name": name, "domain": "multi"}
+        rres = common.run_jobs(rjobs, wd, timeout=60, cwd=sub)
+        for jid, r in rres.items():
+            kind, _, hk = jid.split("|")
+            ck.count()
+            ck.nontriv(("relpath", jid))
+            o = judge(ck, index[jid]["name"], hk, kind, r, None)
+            if o is not None and o[0] == "ok" and "RelApi" not in o[1] and "allowlist" in jid:
+                raise common.Machinery(f"C13 relative-path case {jid} selects nothing: the pattern does not match the relative spelling")
     # the same single rows with the environment variables bindgen consults set: what the environment contributes must not be
     # folded into the configuration (a re-parsed flag list would then carry it twice)
     if not only or only.startswith("env:"):
